@@ -18,9 +18,13 @@ def run_one(d):
     try:
         src = os.path.join(tmp, "repo")
         subprocess.run(["rsync", "-a", "--exclude", "/target", "--exclude", ".git", "/repo/", src + "/"], check=True)
-        r = subprocess.run(["git", "apply", os.path.abspath(os.path.join(d, "patch.diff"))], cwd=src, stdout=subprocess.PIPE, stderr=subprocess.STDOUT, text=True)
+        r = subprocess.run(["git", "apply", "-v", os.path.abspath(os.path.join(d, "patch.diff"))], cwd=src, stdout=subprocess.PIPE, stderr=subprocess.STDOUT, text=True)
         if r.returncode != 0:
             return d, own, meta, None, "patch does not apply: " + r.stdout[-300:]
+        if "offset" in r.stdout:
+            # a hunk that moved may have landed in a sibling with the same context (it did once: mul instead of div)
+            print("NOTE    %s applies with an offset - check that it still changes the intended function: %s" % (
+                os.path.basename(d.rstrip("/")), "; ".join(l.strip() for l in r.stdout.split("\n") if "offset" in l)))
         env = dict(os.environ, VERIF_REPO=src, VERIF_EVIDENCE_DIR=os.path.join(tmp, "ev"), VERIF_CACHE=os.path.join(tmp, "cache"), VERIF_TMP=tmp)
         fired = {}
         for p in ALL:
